@@ -113,6 +113,14 @@ def spec_value(spec, levels, cn, pos):
     return val, min(gl, gr), gl, gr
 
 
+def box_holds_plane(spec, boxes, lv, cn, pos):
+    """does one of `boxes` (pairs (first cell along the normal, samples)) of level `lv` contain the plane (closed box, with a
+    rounding allowance)"""
+    g = spec["geo_low"][cn]; d = spec["dx0"][cn] / 2 ** lv
+    eps = 64 * float(np.spacing(max(abs(pos), abs(g), d)))
+    return any(g + a * d - eps <= pos <= g + (a + len(vals)) * d + eps for a, vals in boxes)
+
+
 def dyadic(spec):
     """all cell sizes and the origin are dyadic rationals of small height: every float operation of the tool is exact"""
     def ok(x):
@@ -121,6 +129,7 @@ def dyadic(spec):
     return all(ok(x) for x in list(spec["dx0"]) + list(spec["geo_low"]))
 
 
+COORDS_DONE = set()   # (plotfile, level, axis) whose coordinate array has been compared with the Lean model
 GL_CANDS = set()      # grid levels of the admissible positions of the last call of spec_candidates
 
 
@@ -206,6 +215,26 @@ def run_case(ctx, rep, spec, cn, posname, pos, fields, limit, serial, model, pat
         pos = out["slice_pos"]
     cx, cy = [i for i in range(3) if i != cn]
     fields = [fields] if isinstance(fields, str) else fields
+    # the grid the pixels live on: the cell centres of the finest selected level
+    for key_, d in (("x", cx), ("y", cy)):
+        n = spec["grid0"][d] * 2 ** L
+        lo_d = spec["geo_low"][d]; hi_d = lo_d + spec["dx0"][d] * spec["grid0"][d]; dx_d = spec["dx0"][d] / 2 ** L
+        want = lo_d + (np.arange(n) + 0.5) * dx_d
+        gotc = np.asarray(out[key_]) if key_ in out else None
+        atol = 1e-12 * max(abs(lo_d), abs(hi_d), dx_d)
+        if gotc is None or gotc.shape != want.shape or not np.allclose(gotc, want, rtol=0, atol=atol):
+            rep.fail(f"the {key_} coordinates of the slice are not the {n} cell centres of level {L} along axis {d}"
+                     f" ({None if gotc is None else gotc.shape} values)", case)
+            return
+        if batch is not None and (path, L, d) not in COORDS_DONE:
+            COORDS_DONE.add((path, L, d))
+            m = leanio.driver([{"op": "coords", "lo": J(lo_d), "hi": J(hi_d), "dx": J(dx_d), "n": n}])[0]
+            mv = np.array([a / b for a, b in m["axis"]]) if "axis" in m else None
+            rep.count("coords-theorem-hypothesis-" + ("holds" if m.get("exact") else "fails"))
+            if mv is not None and mv.shape == gotc.shape and np.allclose(gotc, mv, rtol=0, atol=atol):
+                rep.agree()
+            else:
+                rep.tie("slice coordinates differ from the Lean coordinate model", case, {"model": m.get("status")})
     flist = [f for f in fields if f != "grid_level"]
     do_grid = "grid_level" in fields
     extra_keys = [k for k in out if k not in set(fields) | {"x", "y", "z", "slice_pos", "normal", "time", "grid_level", "pos"} and k in names]
@@ -239,6 +268,10 @@ def run_case(ctx, rep, spec, cn, posname, pos, fields, limit, serial, model, pat
                         what = "grid_level read from never-written memory"
                     elif not levels[int(gg)] if 0 <= int(gg) <= L else True:
                         what = f"grid_level {gg} is a level without a box at this pixel"
+                    elif int(gg) not in GL_CANDS and not box_holds_plane(spec, levels[int(gg)], int(gg), cn, pos):
+                        # the boxes of that level over this pixel all lie beside the plane (one of them may lend a sample)
+                        what = (f"grid_level {gg} is a level whose boxes over this pixel do not reach the plane (the finest level "
+                                f"with data at the pixel is {sorted(GL_CANDS)})")
             if what is None and mode == "affine" and sv is not None and sv[2] == sv[3] and not knife:
                 # closed form: both samples from one level -> exactly c0 + c_n*pos + in-plane terms of that level's cell
                 lv = sv[2]
